@@ -149,3 +149,14 @@ Example c12_nonvacuous :
        Call KNotifyPortFree; Adv 700; Call KTickNow; Pop; Ret true; Adv 1500; Pop; Ret false] = Some (s, evs)
     /\ pops evs = [666; 1332; 1998].
 Proof. split; [unfold in_range; lia|]. split; [reflexivity|]. do 2 eexists. vm_compute. split; reflexivity. Qed.
+
+(** The predicate evaluated on the implementation's observed histories
+    ([Exec.holds_on]: the four clauses re-checked without the model) is implied by
+    step-by-step agreement of those histories with the model ([Exec.check_case]),
+    for cases whose frequencies are in 1 Hz..1 THz and whose engine times all have
+    a representable next clock edge ([Exec.wf_case]). *)
+From Akita Require Import C12.Exec C12.Link.
+Theorem c12_model_agreement_implies_property : forall c,
+  wf_case c = true -> check_case c = true -> holds_on c = true.
+Proof. exact check_implies_holds. Qed.
+Print Assumptions c12_model_agreement_implies_property.
